@@ -16,7 +16,7 @@ theorem State.ext' {a b : State} (h1 : a.notes = b.notes) (h2 : a.recs = b.recs)
     (h7 : a.published = b.published) (h8 : a.notifyCalled = b.notifyCalled)
     (h9 : a.ownDl = b.ownDl) (h10 : a.ancEver = b.ancEver) (h11 : a.pathMin = b.pathMin)
     (h12 : a.bornNotified = b.bornNotified) (h13 : a.after = b.after)
-    (h14 : a.observed = b.observed) : a = b := by
+    (h14 : a.observed = b.observed) (h15 : a.cparent = b.cparent) : a = b := by
   cases a; cases b; simp_all
 
 /-- C19: when `malloc` fails inside `nsync_note_new`, nothing but the caller's program counter
